@@ -61,6 +61,7 @@ Proof.
       (split; [lra | split; [lra | split; intro; lra]]).
   - boolsplit. destruct (Qlt_bool i m) eqn:E1; to_R;
       (split; [lra | split; [lra | split; [lra | intro; lra]]]).
+  - boolsplit. to_R. split; [lra | apply Rabs_le; lra].
 Qed.
 
 Lemma site_ok_sound : forall s, site_ok s = true -> site_valid s.
